@@ -65,9 +65,13 @@ POOL = [
 class TreeCase:
     def __init__(self, ch):
         self.ch = ch
+        self.pool = list(POOL)
         self.nfun = ch.int(1, 2, "t.nfun")
         self.funs = []
         for f in range(self.nfun):
+            if ch.chance(0.2, f"t.{f}.recycle"):
+                self.funs.append((f"check_t{f}(uint256,uint256,uint256)", self._recycle_tree(f"t.{f}.r")))
+                continue
             if ch.chance(0.2, f"t.{f}.chain"):
                 # exclusion chain: an unsatisfiable leaf whose unsat core needs 20-45 conditions (solvers wrap long cores over lines)
                 self.funs.append((f"check_t{f}(uint256,uint256,uint256)",
@@ -76,6 +80,33 @@ class TreeCase:
                 continue
             depth = ch.int(3, 4, f"t.{f}.depth")
             self.funs.append((f"check_t{f}(uint256,uint256,uint256)", self._node(depth, f"t.{f}")))
+
+    def _pred(self, pr):
+        self.pool.append(pr)
+        return len(self.pool) - 1
+
+    def _recycle_tree(self, lbl):
+        """an unsatisfiable leaf whose core contains a constraint that only its own state keeps alive (vm.assume on a taken
+        branch), explored and dropped before sibling paths create conditions that did not exist before (term ids may be
+        re-used) and reach a satisfiable leaf sharing the rest of the core"""
+        ch = self.ch
+        assumed, contra = ch.choose([(_p_and_eq(0, 1, 0), _p_and_eq(0, 3, 3)), (_p_lt(2, 10), _p_gt(2, 20)),
+                                     (_p_and_eq(1, 0xFF, 3), _p_and_eq(1, 0x0F, 5)), (_p_gt(2, 20), _p_lt(2, 10))], lbl + ".pair")
+        pa, pc = self._pred(assumed), self._pred(contra)
+        leafy = ("node", pc, ("leaf", "panic"), ("leaf", "success"))
+        a_side = ("assume", pa, leafy)
+        c_side = leafy
+        for k in range(ch.int(1, 3, lbl + ".nfresh")):
+            i = ch.pick(3, f"{lbl}.f{k}.arg")
+            fresh = self._pred(_p_and_eq(i, (1 << 256) - 1, ch.int(1, 40, f"{lbl}.f{k}.c")))
+            c_side = ("node", fresh, c_side, ("leaf", "success")) if ch.chance(0.5, f"{lbl}.f{k}.side") else \
+                ("node", fresh, ("leaf", "success"), c_side)
+        sel = self._pred(_p_and_eq(ch.pick(3, lbl + ".sel.arg"), (1 << 256) - 1, ch.int(1, 9, lbl + ".sel.c")))
+        inner = ("node", sel, a_side, c_side) if ch.chance(0.5, lbl + ".sel.side") else ("node", sel, c_side, a_side)
+        if ch.chance(0.5, lbl + ".gate"):
+            gate = self._pred(_p_and_eq(ch.pick(3, lbl + ".gate.arg"), (1 << 256) - 1, 1))
+            return ("node", gate, inner, ("leaf", "success")) if ch.chance(0.5, lbl + ".gate.side") else ("node", gate, ("leaf", "success"), inner)
+        return inner
 
     def _node(self, depth, lbl):
         ch = self.ch
@@ -133,13 +164,13 @@ class TreeCase:
                 a.op("STOP")
             return
         if node[0] == "assume":
-            A.emit_vm_call(a, "assume(bool)", [POOL[node[1]][1]])
+            A.emit_vm_call(a, "assume(bool)", [self.pool[node[1]][1]])
             a.op("POP")
             self.emit(a, node[2])
             return
         _, p, t, f = node
         els = a.fresh("else")
-        POOL[p][1](a)
+        self.pool[p][1](a)
         a.op("ISZERO").jumpi(els)
         self.emit(a, t)
         a.label(els)
@@ -160,8 +191,8 @@ class TreeCase:
             if n[0] == "chain":
                 return {"chain": list(n[1:])}
             if n[0] == "assume":
-                return {"assume " + POOL[n[1]][0]: d(n[2])}
-            return n[1] if n[0] == "leaf" else {POOL[n[1]][0]: [d(n[2]), d(n[3])]}
+                return {"assume " + self.pool[n[1]][0]: d(n[2])}
+            return n[1] if n[0] == "leaf" else {self.pool[n[1]][0]: [d(n[2]), d(n[3])]}
         return {sig: d(tree) for sig, tree in self.funs}
 
 
